@@ -48,7 +48,7 @@ func (tp tagPath) Matches(p tagPath) bool {
 		return false
 	}
 	for i, t := range tp {
-		if t != p[i] {
+		if t != 0 && t != p[i] {
 			return false
 		}
 	}
